@@ -66,9 +66,11 @@ def queries_for(points, cap=24):
     return qs
 
 
-def check_ir(g, ir, props=None, others=()):
-    """others: IRs whose nodes must never be returned by this IR"""
+def check_ir(g, ir, props=None, others=(), light=False):
+    """others: IRs whose nodes must never be returned by this IR; light:
+    fewer query points (for use after every transition of an exploration)"""
     out = []
+    cap_b, cap_i, cap_e = (6, 6, 4) if light else (24, 24, 12)
 
     def bad(sig, detail):
         if props is None or sig[:3] in props:
@@ -148,7 +150,7 @@ def check_ir(g, ir, props=None, others=()):
         if k.byte_interval.address is not None:
             a = k.byte_interval.address + k.offset
             pts += [a, a + k.size]
-    qs = queries_for(pts)
+    qs = queries_for(pts, cap_b)
     for scope, blocks, nm in scopes:
         for q in qs:
             r = qrange(q)
@@ -183,7 +185,7 @@ def check_ir(g, ir, props=None, others=()):
     for b in t["intervals"]:
         if b.address is not None:
             pts += [b.address, b.address + b.size]
-    qs = queries_for(pts)
+    qs = queries_for(pts, cap_i)
     iscopes = [(s, list(s.byte_intervals), "Section") for s in t["sections"]]
     iscopes += [(m, [b for s in m.sections for b in s.byte_intervals],
                  "Module") for m in t["modules"]]
@@ -232,7 +234,7 @@ def check_ir(g, ir, props=None, others=()):
     for b in t["intervals"]:
         if b.address is not None:
             pts += [b.address + o for o in b.symbolic_expressions]
-    qs = queries_for(pts, 12)
+    qs = queries_for(pts, cap_e)
     for scope, ivs, nm in escopes:
         for q in qs:
             r = qrange(q)
